@@ -185,8 +185,8 @@ func init() {
 			}
 			return n + 20000
 		},
-		Run:        runC04,
-		Required:   []string{"violating_frames_rejected", "legal_frames_accepted", "close_1002_seen"},
+		Run:      runC04,
+		Required: []string{"violating_frames_rejected", "legal_frames_accepted", "close_1002_seen"},
 		Assumptions: []string{
 			"exhaustive at the abstraction of the rule (length classes and 6 histories stand for all lengths and all histories)",
 			"UNSPECIFIED cells (RSV1 on continuation/control frames or on first frames whose payload is not a DEFLATE stream when compression is negotiated, non-minimal length encodings, 1-byte close bodies, close codes 1012-1014, 2^63-1 lengths) are executed but no outcome is demanded",
